@@ -1,13 +1,268 @@
-import GeffModel.Ctc
+import GeffProofs.CtcBridge
 /-! # C15 — CTC conversion produces exactly the tracked graph of the dataset
-(property theorems are being added; this file always compiles) -/
+
+Property theorems only.  Model: `Geff.Ctc.fromCtc` (`GeffModel/Ctc.lean`: the frame loop with the
+running node id, the `tracks` dict, the consecutive-occurrence edges, the table loop, the axes), tied
+to `geff.convert.from_ctc_to_geff` / `geff convert-ctc` by `harness/corr/C15.py` (same synthetic
+datasets through both; node arrays, the edge list *in stored order*, axes and exception class compared).
+
+Vocabulary (defined with doc-strings in `GeffProofs/CtcSpec.lean`, `GeffProofs/Ctc.lean`):
+* `Dataset` = `ndim`, `frames : List (List Region)` (what `regionprops` yields per tiff, a region =
+  label + centroid tokens), `table : List Row` (rows `L B E P`); `ds.WF` : `ndim ∈ {2,3}` and every
+  centroid has `ndim` coordinates; `ds.Sorted` : labels strictly ascending inside each frame;
+* `objs 0 ds.frames` : the regions frame by frame, each tagged with its frame index — the loop order;
+* `prows ds` : the table rows with `P > 0`;
+* `NodeAt out a t l` : some index `i` has `nodeIds[i] = a`, `t[i] = t`, `tracklet_id[i] = l`;
+* `Consec N a b`, `IsFirst N l a`, `IsLast N l a` : consecutive appearances / earliest / latest node
+  of a label, by *time*; `EdgeSpec N rows es` : `es` = every consecutive pair once ++ one
+  parent-last → child-first edge per row;
+* `Occurs ds l t`, `Consistent ds` : rows with a parent name occurring labels, every appearance of
+  the parent precedes every appearance of the child, no label has two parent rows
+  (`consistentB_iff` : the executable decider the harness cross-checks equals this `Prop`);
+* `TrackletValid es V lab` : the tracklet definition of docs/tracking.md (copied from the C13 spike).
+
+Everything is quantified over all datasets (any number of frames, labels, gaps, children, rows in
+any order).  Not covered by a theorem (differential tests in the harness, "partial"): tiff decoding,
+`regionprops`, centroid arithmetic, `np.loadtxt`, the exported segmentation array and the
+related-object path, zarr I/O. -/
 namespace GeffProps.C15
 open Geff.Ctc
 
-/-- the axes are `t,(z),y,x` according to whether a `z` list exists -/
-theorem axesOf_cases (coords : List (String × List String)) :
-    axesOf coords = [("t", "time"), ("z", "space"), ("y", "space"), ("x", "space")] ∨
-    axesOf coords = [("t", "time"), ("y", "space"), ("x", "space")] := by
-  unfold axesOf; split <;> simp
+/-- `dict[name][i]` of the coordinate lists -/
+def coordAt (out : Out) (name : String) (i : Nat) : Option String :=
+  (dictGet? out.coords name).bind (·[i]?)
+
+/-! ## Outcome: which datasets convert -/
+
+/-- **C15_outcome**: the converter raises `ValueError` ("No nodes found") exactly when no frame has a
+region; otherwise `KeyError` exactly when some row with a parent names a label that never occurs;
+otherwise it returns a graph.  No other exception constructor is reachable. -/
+theorem C15_outcome (ds : Dataset) (hwf : ds.WF) :
+    ((∀ fr ∈ ds.frames, fr = []) → fromCtc ds = .valueError) ∧
+    (¬ (∀ fr ∈ ds.frames, fr = []) →
+      (∃ r ∈ prows ds, ¬ ((∃ t, Occurs ds r.L t) ∧ (∃ t, Occurs ds r.P t))) → fromCtc ds = .keyError) ∧
+    (¬ (∀ fr ∈ ds.frames, fr = []) →
+      (∀ r ∈ prows ds, (∃ t, Occurs ds r.L t) ∧ (∃ t, Occurs ds r.P t)) → ∃ out, fromCtc ds = .ok out) := by
+  obtain ⟨h1, h2, h3⟩ := fromCtc_spec ds hwf
+  refine ⟨fun h => h1 ((objs_eq_nil_iff _ _).2 h), ?_, ?_⟩
+  · rintro hne ⟨r, hr, hbad⟩
+    refine h2 (fun h => hne ((objs_eq_nil_iff _ _).1 h)) ⟨r, hr, ?_⟩
+    rwa [mem_labelsOf_iff, mem_labelsOf_iff]
+  · intro hne hall
+    obtain ⟨tracks, coords, _, _, h⟩ := h3 (fun h => hne ((objs_eq_nil_iff _ _).1 h))
+      (fun r hr => by rw [mem_labelsOf_iff, mem_labelsOf_iff]; exact hall r hr)
+    exact ⟨_, h⟩
+
+/-- a consistent dataset with at least one region converts -/
+theorem C15_consistent_converts (ds : Dataset) (hwf : ds.WF) (hc : Consistent ds)
+    (hne : ¬ (∀ fr ∈ ds.frames, fr = [])) : ∃ out, fromCtc ds = .ok out :=
+  (C15_outcome ds hwf).2.2 hne hc.occur
+
+/-! ## Nodes -/
+
+/-- **C15_nodes**: the nodes are the (frame, label) regions, bijectively: node ids are `0 … n-1`
+where `n` is the number of regions, position `i` of the node arrays describes the `i`-th region of
+the loop order — its frame index as `t`, its label as `tracklet_id`, its centroid as `(z,) y, x` —
+every region of every frame is such a position and vice versa, and the axes are `t,(z),y,x`. -/
+theorem C15_nodes (ds : Dataset) (hwf : ds.WF) (out : Out) (h : fromCtc ds = .ok out) :
+    out.nodeIds = List.range (objs 0 ds.frames).length ∧
+    out.ts = (objs 0 ds.frames).map (·.1) ∧
+    out.tracklet = (objs 0 ds.frames).map (·.2.label) ∧
+    (∀ (t : Nat) (r : Region),
+      (∃ fr, ds.frames[t]? = some fr ∧ r ∈ fr) ↔ ∃ i : Nat, (objs 0 ds.frames)[i]? = some (t, r)) ∧
+    (∀ (i t : Nat) (r : Region), (objs 0 ds.frames)[i]? = some (t, r) →
+      (ds.ndim = 2 → ∃ y x, r.centroid = [y, x] ∧ coordAt out "y" i = some y ∧ coordAt out "x" i = some x ∧
+        out.coords.map (·.1) = ["x", "y"]) ∧
+      (ds.ndim = 3 → ∃ z y x, r.centroid = [z, y, x] ∧ coordAt out "z" i = some z ∧ coordAt out "y" i = some y ∧
+        coordAt out "x" i = some x ∧ out.coords.map (·.1) = ["x", "y", "z"])) ∧
+    (∀ c ∈ out.coords, c.2.length = out.nodeIds.length) ∧
+    out.axes = (if ds.ndim = 3 then [("t", "time"), ("z", "space"), ("y", "space"), ("x", "space")]
+                else [("t", "time"), ("y", "space"), ("x", "space")]) := by
+  obtain ⟨_, _, tracks, coords, _, hco, rfl⟩ := fromCtc_ok_inv ds hwf out h
+  refine ⟨rfl, rfl, rfl, ?_, ?_, ?_, ?_⟩
+  · intro t r
+    rw [← List.mem_iff_getElem?, mem_objs]
+    simp
+  · intro i t r hi
+    have hmem : (t, r) ∈ objs 0 ds.frames := List.mem_of_getElem? hi
+    obtain ⟨_, fr, hfr, hr⟩ := (mem_objs ds.frames 0 t r).1 hmem
+    have hlen := hwf.cen fr (List.mem_of_getElem? hfr) r hr
+    have hget : ∀ (xs : List String) (k : Nat), xs.map some = (objs 0 ds.frames).map (comp k) →
+        xs[i]? = r.centroid.reverse[k]? := by
+      intro xs k hx
+      have := congrArg (fun l => l[i]?) hx
+      simp only [List.getElem?_map, hi, Option.map_some, comp] at this
+      cases hxi : xs[i]? with
+      | none => rw [hxi] at this; cases this
+      | some v => rw [hxi] at this; simpa using this
+    cases hco with
+    | two xs ys h3 hx hy =>
+      refine ⟨fun h2 => ?_, fun h => absurd h h3⟩
+      obtain ⟨a, b, hab⟩ := list_len2 r.centroid (by omega)
+      refine ⟨a, b, hab, ?_, ?_, rfl⟩
+      · simp [coordAt, dictGet?, hget ys 1 hy, hab]
+      · simp [coordAt, dictGet?, hget xs 0 hx, hab]
+    | three xs ys zs h3 hx hy hz =>
+      refine ⟨fun h2 => by omega, fun _ => ?_⟩
+      obtain ⟨a, b, d, hab⟩ := list_len3 r.centroid (by omega)
+      refine ⟨a, b, d, hab, ?_, ?_, ?_, rfl⟩
+      · simp [coordAt, dictGet?, hget zs 2 hz, hab]
+      · simp [coordAt, dictGet?, hget ys 1 hy, hab]
+      · simp [coordAt, dictGet?, hget xs 0 hx, hab]
+  · intro c hc
+    simpa using hco.lengths c hc
+  · cases hco with
+    | two xs ys h3 hx hy => simp [axesOf, hasKey, h3]
+    | three xs ys zs h3 hx hy hz => simp [axesOf, hasKey, h3]
+
+/-- the node predicate of the output is the position predicate of the loop order -/
+theorem nodeAt_iff (ds : Dataset) (hwf : ds.WF) (out : Out) (h : fromCtc ds = .ok out) (a t : Nat) (l : Int) :
+    NodeAt out a t l ↔ At (objs 0 ds.frames) a t l := by
+  obtain ⟨_, _, tracks, coords, _, _, rfl⟩ := fromCtc_ok_inv ds hwf out h
+  exact nodeAt_closed _ _ _ _ a t l
+
+/-- **C15_nodes (one node per (frame,label))**: with ascending labels inside each frame, a node is
+determined by its frame and label, and a node id carries one time and one label. -/
+theorem C15_nodes_unique (ds : Dataset) (hwf : ds.WF) (hs : ds.Sorted) (out : Out) (h : fromCtc ds = .ok out) :
+    out.nodeIds.Nodup ∧
+    (∀ a b t l, NodeAt out a t l → NodeAt out b t l → a = b) ∧
+    (∀ a t t' l l', NodeAt out a t l → NodeAt out a t' l' → t = t' ∧ l = l') ∧
+    (∀ t l, Occurs ds l t ↔ ∃ a, NodeAt out a t l) := by
+  have hO := objs_pairwise ds.frames 0 hs
+  refine ⟨?_, ?_, ?_, ?_⟩
+  · rw [(C15_nodes ds hwf out h).1]; exact List.nodup_range
+  · intro a b t l ha hb
+    rw [nodeAt_iff ds hwf out h] at ha hb
+    exact at_inj hO a b t l ha hb
+  · intro a t t' l l' ha hb
+    rw [nodeAt_iff ds hwf out h] at ha hb
+    exact ha.unique hb
+  · intro t l
+    rw [occurs_iff_at]
+    simp only [nodeAt_iff ds hwf out h]
+
+/-! ## Edges -/
+
+theorem nodeAt_eq (ds : Dataset) (hwf : ds.WF) (out : Out) (h : fromCtc ds = .ok out) :
+    NodeAt out = At (objs 0 ds.frames) := by
+  funext a t l; exact propext (nodeAt_iff ds hwf out h a t l)
+
+/-- **C15_edges**: the edge list is, as a multiset, exactly: one edge between every two consecutive
+appearances of a label (each once), plus, for each table row with a parent, one edge from the last
+node of the parent label to the first node of the child label. -/
+theorem C15_edges (ds : Dataset) (hwf : ds.WF) (hs : ds.Sorted) (out : Out) (h : fromCtc ds = .ok out) :
+    EdgeSpec (NodeAt out) (prows ds) out.edges := by
+  rw [nodeAt_eq ds hwf out h]
+  obtain ⟨_, hall, tracks, coords, ht, _, rfl⟩ := fromCtc_ok_inv ds hwf out h
+  exact edgeSpec_closed (objs_pairwise ds.frames 0 hs) ht (prows ds) hall
+
+/-! ## Graph validity and the tracklet annotation of consistent datasets -/
+
+theorem consistent_order (ds : Dataset) (hc : Consistent ds) :
+    ∀ r ∈ prows ds, ∀ a b tp tc, At (objs 0 ds.frames) a tp r.P → At (objs 0 ds.frames) b tc r.L → tp < tc :=
+  fun r hr a b tp tc ha hb =>
+    hc.order r hr tp tc ((occurs_iff_at ds _ _).2 ⟨a, ha⟩) ((occurs_iff_at ds _ _).2 ⟨b, hb⟩)
+
+/-- **C15_graph_valid**: for a consistent dataset the output satisfies the right-hand side of graph
+validity (C12): node ids are unique, every edge endpoint is a node, there is no self edge and no
+repeated edge. -/
+theorem C15_graph_valid (ds : Dataset) (hwf : ds.WF) (hs : ds.Sorted) (hc : Consistent ds)
+    (out : Out) (h : fromCtc ds = .ok out) :
+    out.nodeIds.Nodup ∧
+    (∀ a b, (a, b) ∈ out.edges → a ∈ out.nodeIds ∧ b ∈ out.nodeIds) ∧
+    (∀ a b, (a, b) ∈ out.edges → a ≠ b) ∧
+    out.edges.Nodup := by
+  have hO := objs_pairwise ds.frames 0 hs
+  have hspec := C15_edges ds hwf hs out h
+  rw [nodeAt_eq ds hwf out h] at hspec
+  obtain ⟨h1, h2, h3⟩ := edges_valid (N := At (objs 0 ds.frames)) (fun a t t' l l' ha hb => ha.unique hb)
+    (consistent_order ds hc) hc.oneParent hspec
+  have hids := (C15_nodes ds hwf out h).1
+  refine ⟨by rw [hids]; exact List.nodup_range, ?_, h2, h3⟩
+  intro a b hab
+  obtain ⟨⟨ta, la, ha⟩, ⟨tb, lb, hb⟩⟩ := h1 a b hab
+  rw [hids]
+  exact ⟨List.mem_range.2 ha.lt, List.mem_range.2 hb.lt⟩
+
+/-- **C15_tracklets**: for a consistent dataset the declared tracklet annotation (`tracklet_id` =
+CTC label) satisfies the tracklet definition **iff no parent has exactly one child** (every row with
+a parent has a sibling row).  The `→` direction is the known finding
+`C15:single-child-continuation`: CTC labels a continuation `1 → 2` with two ids although the path is
+unbranched. -/
+theorem C15_tracklets (ds : Dataset) (hwf : ds.WF) (hs : ds.Sorted) (hc : Consistent ds)
+    (out : Out) (h : fromCtc ds = .ok out) :
+    TrackletValid out.edges (fun a => a ∈ out.nodeIds) (fun a => out.tracklet[a]?) ↔
+      ∀ r ∈ prows ds, ∃ r' ∈ prows ds, r'.P = r.P ∧ r'.L ≠ r.L := by
+  have hO := objs_pairwise ds.frames 0 hs
+  have hspec := C15_edges ds hwf hs out h
+  rw [nodeAt_eq ds hwf out h] at hspec
+  obtain ⟨hids, _, htr, _⟩ := C15_nodes ds hwf out h
+  have hV : (fun a => a ∈ out.nodeIds) = (fun a => ∃ t l, At (objs 0 ds.frames) a t l) := by
+    funext a
+    apply propext
+    rw [hids, List.mem_range]
+    constructor
+    · intro ha
+      obtain ⟨t, r⟩ := (objs 0 ds.frames)[a]
+      exact ⟨((objs 0 ds.frames)[a]).1, _, ((objs 0 ds.frames)[a]).2, List.getElem?_eq_getElem ha, rfl⟩
+    · rintro ⟨t, l, hat⟩; exact hat.lt
+  rw [hV]
+  refine tracklet_iff (N := At (objs 0 ds.frames)) (fun a t t' l l' ha hb => ha.unique hb)
+    (at_inj hO) (consistent_order ds hc) hc.oneParent hspec _ ?_ (at_chain hO)
+  intro a t l hat
+  rw [htr]; exact hat.label
+
+/-- full property for the datasets CTC calls "with divisions only": consistent and every parent has
+at least two children ⇒ valid graph with a valid tracklet annotation -/
+theorem C15_tracklets_of_no_single_child (ds : Dataset) (hwf : ds.WF) (hs : ds.Sorted) (hc : Consistent ds)
+    (hsib : ∀ r ∈ prows ds, ∃ r' ∈ prows ds, r'.P = r.P ∧ r'.L ≠ r.L)
+    (out : Out) (h : fromCtc ds = .ok out) :
+    TrackletValid out.edges (fun a => a ∈ out.nodeIds) (fun a => out.tracklet[a]?) :=
+  (C15_tracklets ds hwf hs hc out h).2 hsib
+
+/-! ## The hypothesis is necessary: known finding `C15:single-child-continuation`
+
+Two frames, label 1 in frame 0, label 2 in frame 1, table `1 0 0 0` / `2 1 1 1` (corpus case
+`D12c-single-child`). -/
+def singleChild : Dataset :=
+  ⟨2, [[⟨1, ["y0", "x0"]⟩], [⟨2, ["y1", "x1"]⟩]], [⟨1, 0, 0, 0⟩, ⟨2, 1, 1, 1⟩]⟩
+
+theorem C15_counterexample_single_child :
+    ∃ out, fromCtc singleChild = .ok out ∧ out.edges = [(0, 1)] ∧ out.tracklet = [1, 2] ∧
+      ¬ TrackletValid out.edges (fun a => a ∈ out.nodeIds) (fun a => out.tracklet[a]?) := by
+  refine ⟨_, rfl, by decide, by decide, ?_⟩
+  intro hv
+  have hte : TE [((0 : Nat), (1 : Nat))] 0 1 := by
+    refine ⟨by simp, ?_, ?_⟩ <;> intro w hw <;> simp at hw <;> omega
+  have := (hv.edge_iff 0 1 (by decide) (by decide) (by decide)).2 hte
+  revert this; decide
+
+/-! ## Non-vacuity -/
+
+/-- a division with a gap: label 1 in frames 0 and 2, children 2 and 3 from frame 3 -/
+def division : Dataset :=
+  ⟨2, [[⟨1, ["a", "b"]⟩, ⟨5, ["c", "d"]⟩], [⟨5, ["e", "f"]⟩], [⟨1, ["g", "h"]⟩],
+       [⟨2, ["i", "j"]⟩, ⟨3, ["k", "l"]⟩]],
+   [⟨1, 0, 2, 0⟩, ⟨5, 0, 1, 0⟩, ⟨2, 3, 3, 1⟩, ⟨3, 3, 3, 1⟩]⟩
+
+example : fromCtc division = .ok
+    ⟨[0, 1, 2, 3, 4, 5], [1, 5, 5, 1, 2, 3], [0, 0, 1, 2, 3, 3],
+     [("x", ["b", "d", "f", "h", "j", "l"]), ("y", ["a", "c", "e", "g", "i", "k"])],
+     [(0, 3), (1, 2), (3, 4), (3, 5)], [("t", "time"), ("y", "space"), ("x", "space")]⟩ := by decide
+
+example : division.WF ∧ division.Sorted := by
+  refine ⟨⟨Or.inl rfl, ?_⟩, ?_⟩
+  · intro fr hfr r hr
+    simp [division] at hfr
+    rcases hfr with rfl | rfl | rfl | rfl <;> simp at hr <;> (try rcases hr with rfl | rfl) <;> rfl
+  · intro fr hfr
+    simp [division] at hfr
+    rcases hfr with rfl | rfl | rfl | rfl <;> simp
+
+example : Consistent division := (consistentB_iff division).1 (by decide)
+
+example : ∀ r ∈ prows division, ∃ r' ∈ prows division, r'.P = r.P ∧ r'.L ≠ r.L := by decide
+
+example : Consistent singleChild := (consistentB_iff singleChild).1 (by decide)
 
 end GeffProps.C15
